@@ -121,7 +121,7 @@ theorem family_cells (m : MutateCall) (inner : Option (List (Bytes × Bytes))) :
       cases m.deleteOneVersion <;> simp [hd, Spec.kindOfDelete]
     | some qs =>
       cases qs with
-      | nil => simp [hd]
+      | nil => cases m.deleteOneVersion <;> simp [hd, Spec.kindOfDelete]
       | cons q qs =>
         cases m.deleteOneVersion <;> simp [hd, Spec.kindOfDelete]
   · cases inner with
